@@ -15,7 +15,9 @@ PROP = Property(
         cbmc_args=["--unwindset", "memcmp.0:34"],  # Vec<usize> / Vec<u8> equality of up to 4 indices compiles to memcmp over up to 32 bytes
         attach=[(CM, "contracts/mithril-stm/c09_merkle.rs", "verif_c09")],
         anchors=[(CM, "verify_leaves_membership_from_batch_path", None), (TR, "compute_merkle_tree_batch_path", None), (TR, "new", "MerkleTree<D, L>")],
-        harnesses=[H("c09_completeness_n%d_m%d" % sh, "bounded", COMP, FN, bound="n = %d leaves (symbolic bytes), selection mask %d" % sh, replay="none", timeout=1500,
+        harnesses=[H("c09_heap_index_laws_all_indices", "full", "for all i < usize::MAX/2: parent(left_child(i)) == parent(right_child(i)) == i; children are siblings; sibling involutive; siblings share their parent; parity <=> left/right child; parent(i) < i",
+                     ["merkle_tree::parent", "merkle_tree::left_child", "merkle_tree::right_child", "merkle_tree::sibling"], timeout=600)]
+        + [H("c09_completeness_n%d_m%d" % sh, "bounded", COMP, FN, bound="n = %d leaves (symbolic bytes), selection mask %d" % sh, replay="none", timeout=1500,
                      tier=("quick" if sh in [(1, 1), (2, 1), (2, 2), (2, 3)] else "thorough")) for sh in [(1, 1), (2, 1), (2, 2), (2, 3), (3, 1), (3, 2), (3, 3), (3, 4), (3, 5), (3, 6), (3, 7), (4, 5), (4, 10), (4, 15)]]
         + [H("c09_length_binding_%s" % nm, "bounded", "a proof for ki indices presented with kc != ki claimed leaves is rejected (symbolic leaves, claims, path values)", FN,
              bound="shape %s" % nm, replay="none", timeout=1500, tier=("quick" if nm == "n2_i1_c2" else "thorough")) for nm in ["n2_i1_c2", "n2_i2_c1", "n3_i1_c2"]]
@@ -24,7 +26,7 @@ PROP = Property(
         )],
     verus=[VerusUnit("heap_index", "verus/C09/heap_index.tmpl.rs",
                      "extracted parent/left_child/right_child/sibling: parent(left_child(i)) == parent(right_child(i)) == i, sibling involutive, siblings share their parent, parity <=> left/right child, no overflow below usize::MAX/2; leaf layout lemma",
-                     ["merkle_tree::parent", "merkle_tree::left_child", "merkle_tree::right_child", "merkle_tree::sibling"])],
+                     ["merkle_tree::parent", "merkle_tree::left_child", "merkle_tree::right_child", "merkle_tree::sibling"], paired_kani=["c09_heap_index_laws_all_indices"], twins_equivalent=True)],
     assumptions=[
         "hash = ideal (collision-free, memoised) function: the real generic tree/commitment code is executed at this Digest implementation; Blake2b itself is not verified",
         "tree size bounded (n <= 2 quick, n <= 4 thorough), one harness per concrete shape (selection resp. number of claimed leaves / path values), contents symbolic; wire indices < 8 (overflow of `i + next_power_of_two - 1` for huge indices is a C05 matter)",
